@@ -6,6 +6,8 @@ import (
 	"encoding/json"
 	"fmt"
 	"testing"
+	"time"
+	"verif/fakemaster"
 
 	"github.com/Breeze0806/gobinlog"
 	"github.com/Breeze0806/gobinlog/replication"
@@ -104,6 +106,10 @@ type InjectCase struct {
 	At     int
 	Sub    int
 	Pacing int
+	// Quiet: the malformed packet is the last thing the master sends; it keeps the connection open and silent
+	Quiet bool `json:",omitempty"`
+	// OwnID: the replica is configured with the server id the master's events carry (a ring of servers)
+	OwnID bool `json:",omitempty"`
 }
 
 func checkInject(c *InjectCase) error {
@@ -113,7 +119,11 @@ func checkInject(c *InjectCase) error {
 	}
 	start := hist.Pos{File: c.H.FirstFile, Off: c.H.Base}
 	exp := l.Expected(start, 0)
-	ss, err := newSession(c.H.Tables, 17, start)
+	sid := uint32(17)
+	if c.OwnID {
+		sid = c.H.Cfg.ServerID
+	}
+	ss, err := newSession(c.H.Tables, sid, start)
 	if err != nil {
 		return fmt.Errorf("harness: %v", err)
 	}
@@ -121,6 +131,21 @@ func checkInject(c *InjectCase) error {
 	f := Fault{Kind: "invalid", At: c.At, Sub: c.Sub}
 	var streamPanic interface{}
 	at := attempt{l: l, pacing: c.Pacing, mutate: applyFault(l, f)}
+	if c.Quiet {
+		inner := at.mutate
+		at.mutate = func(steps []fakemaster.Step, evIdx []int) []fakemaster.Step {
+			out := inner(steps, evIdx)
+			for i := range out {
+				if out[i].Tag == -9 {
+					out = out[:i+1]
+					out[i].Then = fakemaster.Hold
+					break
+				}
+			}
+			return out
+		}
+		at.fallback = 3 * time.Second
+	}
 	st := func() (st *attemptState) {
 		defer func() {
 			if r := recover(); r != nil {
@@ -135,6 +160,9 @@ func checkInject(c *InjectCase) error {
 	st.drainLib()
 	if !st.served {
 		return fmt.Errorf("harness: not servable")
+	}
+	if c.Quiet && st.fellBack {
+		return fmt.Errorf("a packet failing the validity gate was injected at index %d (class %d) and the master then stayed silent: Stream had not returned 3 s later", c.At, c.Sub%8)
 	}
 	before := commitsIn(l, st.evIdx, c.At)
 	if st.streamErr == nil {
@@ -290,8 +318,10 @@ func TestC17(t *testing.T) {
 			payloads, _, _ := l.Served(h.FirstFile, h.Base)
 			pacing := rapid.IntRange(0, 1).Draw(rt, "pacing")
 			sub := rapid.IntRange(0, 7).Draw(rt, "bad_class")
+			quiet := rapid.IntRange(0, 3).Draw(rt, "quiet_after") == 0
+			ownID := rapid.IntRange(0, 3).Draw(rt, "replica_id_is_event_id") == 0
 			for at := 0; at <= len(payloads); at++ {
-				c := &InjectCase{H: h, At: at, Sub: sub + at, Pacing: pacing}
+				c := &InjectCase{H: h, At: at, Sub: sub + at, Pacing: pacing, Quiet: quiet, OwnID: ownID}
 				journal("C17", "c17inject", c)
 				rec.Case(true, c, "inject", fmt.Sprintf("inject/class%d", c.Sub%8), fmt.Sprintf("inject/pacing=%d", pacing))
 				if at == len(payloads)/2 {
